@@ -460,6 +460,13 @@ where
     }
 }
 
+/// One small shared pool for the dispatchers that are only built to call `setup`.
+fn setup_pool() -> std::sync::Arc<specs::rayon::ThreadPool> {
+    static POOL: std::sync::OnceLock<std::sync::Arc<specs::rayon::ThreadPool>> = std::sync::OnceLock::new();
+    POOL.get_or_init(|| std::sync::Arc::new(specs::rayon::ThreadPoolBuilder::new().num_threads(1).build().unwrap()))
+        .clone()
+}
+
 struct SetupSysR<C>(PhantomData<fn() -> C>);
 impl<'a, C: Comp> System<'a> for SetupSysR<C> {
     type SystemData = ReadStorage<'a, C>;
@@ -486,19 +493,23 @@ where
     }
 
     fn register(&self, w: &mut World, how: u8) {
-        match how % 6 {
+        // no thread pools under Miri (worker threads would be reported as leaks)
+        let how = if cfg!(miri) { how % 4 } else { how % 6 };
+        match how {
             0 => w.register::<C>(),
             1 => w.register_with_storage::<_, C>(Default::default),
             2 => w.setup::<ReadStorage<C>>(),
             3 => w.setup::<WriteStorage<C>>(),
             4 => {
                 let mut d = DispatcherBuilder::new()
+                    .with_pool(setup_pool())
                     .with(SetupSysR::<C>(PhantomData), "r", &[])
                     .build();
                 d.setup(w);
             }
             _ => {
                 let mut d = DispatcherBuilder::new()
+                    .with_pool(setup_pool())
                     .with(SetupSysW::<C>(PhantomData), "w", &[])
                     .build();
                 d.setup(w);
